@@ -125,7 +125,7 @@ def gen_cond(r: random.Random, depth: int = 3, hostile: bool = False, rel: bool 
 def gen_obligation(r: random.Random) -> dict:
     ob: dict[str, Any] = {}
     k = r.random()
-    ob["type"] = choice(r, OBL_TYPES) if k < 0.85 else choice(r, ["require_geo", "log", ""])
+    ob["type"] = choice(r, OBL_TYPES) if k < 0.85 else choice(r, ["require_geo", "log", "", ["require_mfa"], {"t": 1}, 7])
     on = r.random()
     if on < 0.5:
         ob["on"] = "permit"
